@@ -929,7 +929,11 @@ func (s *scanner) ReadStreamData(dict Dict) (stm *Stream, err error) {
 
 	var crypt *filterCrypt
 	if s.enc != nil {
-		crypt = &filterCrypt{enc: s.enc, ref: s.encRef}
+		crypt = &filterCrypt{
+			enc:          s.enc,
+			ref:          s.encRef,
+			embeddedFile: dict["Type"] == Name("EmbeddedFile"),
+		}
 	}
 
 	lengthOK := false
